@@ -77,15 +77,15 @@ class C17(Prop):
         fss = [r for r in results if r[0] == "fs"]
         op_with_obs = [o for o in ops if o[0] not in ("init", "dumpfs", "counters")]
         if len(op_with_obs) != len(obs) or len(fss) != 3:
-            return []
+            return self.skip("guard")
         seq = [(n, kv, idx, o) for (n, kv), (_, idx, o) in zip(op_with_obs, obs)]
         ms = [x for x in seq if x[0] == "match"]
         if len(ms) < 2:
-            return []
+            return self.skip("guard")
         bad, good = ms[-2], ms[-1]
         fails = []
         if bad[3]["outcome"] == "nocall" or good[3]["outcome"] == "nocall":
-            return []
+            return self.skip("guard")
         # independent expectation: the generator knows which matcher sets must fail
         want_fail = case["meta"].get("fail") is not None
         if want_fail and bad[1]["pre"] != "matcherr":
